@@ -84,7 +84,7 @@ class DateTimeTwin(Sub):
             zi = getattr(r1, m)() if m not in ("tzname",) else b
             if m not in ("timetz",):
                 req(a == zi or m in ("dst",), f"{m}() differs from the native datetime with a ZoneInfo tzinfo", got=str(a), native=str(zi))
-        req(type(p1.date()) is Date and type(p1.time()) is Time, "date()/time() do not return pendulum types")
+        req(type(p1.date()) is Date and type(p1.time()) is Time and type(p1.timetz()) is Time, "date()/time()/timetz() do not return pendulum types")
         for fmt in FMT:
             req(p1.strftime(fmt) == n1.strftime(fmt), f"strftime({fmt!r}) differs from native", got=p1.strftime(fmt), native=n1.strftime(fmt))
         req(format(p1, "%Y-%m-%d %H:%M") == format(n1, "%Y-%m-%d %H:%M"), "format(x, '%...') differs from native")
